@@ -25,8 +25,9 @@ META = {
     'level_note': 'Bounded: table of 2.7e4 (quick) / 3.0e5 (thorough) cases, <= 3 stream blocks, <= 2 SSE events; random '
                   'leg <= 5 blocks, 18 status codes, 6 methods. Stream/send fault points are explored for int-status, '
                   'plain-header cases, the render-phase fault for every int-status case (all body sources and preset '
-                  'headers). After a render-phase fault the body of the error response is a D-level detail '
-                  '(RenderPhaseFailureDropsBody) and the fate of an application stream is left open by the design. Trusted: TLC, the protocol monitors and stream doubles of the harness, json.loads, re. '
+                  'headers). After a render-phase fault (the first rendering raises, or the renewed one too) the body belongs '
+                  'to the error handler: its content is a D-level detail, its framing (length, events, type) stays P. '
+                  'Trusted: TLC, the protocol monitors and stream doubles of the harness, json.loads, re. '
                   'Invalid status values and falsy stream objects are outside the domain; which handler takes a render-phase '
                   'exception is C04 (here: the default one, and one handler of the application in the random leg). '
                   'The SSE wire format is only tokenised, not judged.',
@@ -70,6 +71,7 @@ class RaisingMedia(dict):
 
     def _boom(self, *a, **k):
         self._log.renderFailed = True
+        self._log.renderFails += 1
         raise self._exc('injected: media cannot be serialised')
     items = keys = values = __iter__ = _boom
 
@@ -112,7 +114,8 @@ def sse_data(i):
     return b'<E%d>' % i
 
 
-TOKEN = re.compile(rb'<T[^<>]*>|<D[^<>]*>|"<M[^<>]*>"|<S(\d+):[^<>]*>|data: <E(\d+)>\n\n')
+TOKEN = re.compile(rb'<T[^<>]*>|<D[^<>]*>|"<M[^<>]*>"|<S(\d+):[^<>]*>|data: <E(\d+)>\n\n|\{"title": "[^"{}]*"\}')
+ERROR_DOC = {'title': '500 Internal Server Error'}     # what the default handler answers (D-level detail)
 
 
 def pieces_of(body, case):
@@ -140,6 +143,12 @@ def pieces_of(body, case):
             i = int(m.group(1))
             if i < len(case['chunks']) and tok == chunk_payload(i, case['chunks'][i]):
                 piece = ['stream', i]
+        elif tok[:1] == b'{':
+            try:
+                if json.loads(tok.decode('utf-8')) == ERROR_DOC:                         # trusted decoder
+                    piece = ['err', 0]
+            except ValueError:
+                pass
         elif tok[:5] == b'data:':
             i = int(m.group(2))
             if 0 <= i < case['sse']:
@@ -162,6 +171,8 @@ class Log:
         self.raised = False
         self.reads = 0
         self.renderFailed = False
+        self.renderFails = 0          # renderings that raised
+        self.renderCalls = 0          # render_body() calls of the custom response class
 
 
 class _Base:
@@ -377,8 +388,11 @@ def _permute(steps, order):
 def _maybe_render_fault():
     """render_body() of the custom response classes: raises when the current case schedules it"""
     case, var = CUR['case'], CUR['variant']
-    if case['fk'] == 'render' and var.get('render_mode') != 'media':
-        CUR['log'].renderFailed = True
+    log = CUR['log']
+    log.renderCalls += 1
+    if case['fk'] == 'render' and var.get('render_mode') != 'media' and log.renderCalls <= case['fa']:
+        log.renderFailed = True
+        log.renderFails += 1
         raise (HandledRenderFault if var.get('err_handler') else RenderFault)('injected: render_body raises')
 
 
@@ -546,6 +560,7 @@ def execute(case, variant):
             ev.append({'k': 'eof', 'n': 0, 'more': False, 'src': '', 'idx': -1, 'cl': -1, 'ct': ''})
     return {'c': case, 'ev': ev, 'pieces': pieces_of(res.body, case), 'begun': log.begun, 'closes': log.closes,
             'raised': log.raised, 'sendFailed': bool(res.extra.get('send_failed')), 'renderFailed': log.renderFailed,
+            'renderFails': log.renderFails,
             'exc': res.exc is not None,
             'errors': len(res.errors),
             '_info': {'exc': repr(res.exc) if res.exc is not None else None, 'errors': res.errors[:3], 'status': res.status,
@@ -585,10 +600,13 @@ def compare_with_behaviour(b, obs):
     if obs['exc'] and not faulted:
         P('Exception', 'no stream/send fault injected but %s reached the server' % info['exc'])
         return bad, notes
-    if obs['renderFailed'] != (case['fk'] == 'render'):
-        P('Precedence', 'render-phase fault scheduled=%r but body rendering %s' % (
-            case['fk'] == 'render', 'raised' if obs['renderFailed'] else 'never reached the failing source'))
-        return bad, notes
+    if obs['renderFails'] != (case['fa'] if case['fk'] == 'render' else 0):
+        if obs['renderFailed'] != (case['fk'] == 'render'):
+            P('Precedence', 'render-phase fault scheduled=%r but body rendering %s' % (
+                case['fk'] == 'render', 'raised' if obs['renderFailed'] else 'never reached the failing source'))
+            return bad, notes
+        # how often the re-filled response is rendered again is the framework's business
+        notes.append(('D:render_again', '%d renderings raised, specification %d' % (obs['renderFails'], case['fa'])))
     if faulted != faulted_spec:
         # the scheduled fault point was (not) reached: the emission took other steps than the specification's
         P('Precedence', 'fault point %s/%d %s in the specification but %s in the code'
@@ -615,7 +633,10 @@ def compare_with_behaviour(b, obs):
         P('BodilessHaveNoBytes', '%d body bytes' % got_bytes)
     if nstart == 1:
         st = obs['ev'][0]
-        if complete and b['lenreq'] and st['cl'] != got_bytes:
+        # a stream iterated under the error status makes the body a streamed one (the specification's machine
+        # drops the stream, as the code does; the property does not forbid the other choice): D-level only
+        streamed_anyway = case['fk'] == 'render' and obs['begun']
+        if complete and b['lenreq'] and not streamed_anyway and st['cl'] != got_bytes:
             P('LengthConsistent', 'Content-Length %r (-1 = absent) but %d body bytes were sent (status %r)'
               % (st['cl'], got_bytes, info['status']))
         elif st['cl'] != b['cl']:
@@ -687,14 +708,14 @@ def random_case(rng):
             'stream': kind, 'chunks': chunks,
             'sse': (rng.choice((0, 1, 2, 3, 4)) if iface == 'asgi' and rng.random() < 0.15 else -1),
             'cl': -1 if rng.random() < 0.6 else rng.randint(0, 60), 'ct': rng.random() < 0.3,
-            'fk': 'none', 'fa': 0}
+            'fk': 'none', 'fa': 0, 'err': -1}
     t = rng.random()
     if t < 0.25:
         case['fk'], case['fa'] = 'stream', rng.randint(0, max(len(chunks), case['sse'], 0) + 1)
     elif t < 0.5:
         case['fk'], case['fa'] = 'send', rng.randint(0 if iface == 'asgi' else 1, len(chunks) + 3)
     elif t < 0.65:
-        case['fk'], case['fa'] = 'render', 0
+        case['fk'], case['fa'] = 'render', rng.choice((1, 1, 2))
     variant = {'custom': rng.random() < 0.3, 'extra': rng.random() < 0.4,
                'via': rng.choice(('responder', 'responder', 'mw_request', 'mw_response')),
                'set_stream': rng.random() < 0.5, 'cl_header': rng.random() < 0.5, 'none_end': rng.random() < 0.3,
@@ -712,7 +733,7 @@ def media_rendered(case):
 def render_variant(case, variant, prefer_media):
     """how the render-phase fault is raised: by the media (only where the media is rendered at all) or by
     render_body() of the custom response class"""
-    if prefer_media and media_rendered(case):
+    if prefer_media and media_rendered(case) and case['fa'] == 1:     # the handler replaces the media: it raises once
         variant['render_mode'] = 'media'
     else:
         variant['render_mode'] = 'class'
